@@ -26,4 +26,8 @@ def obligations(tier):
                   descr='bare weekday: candidates exactly 7 days apart around the reference date, TIMEX XXXX-WXX-d, past first',
                   bounds='reference = every day number 1950-01-01..2090-12-31 with symbolic time of day; one slice per weekday',
                   encodes=[B + 'base_date:BaseDateParser.parse_implicit_date', B + 'utilities:DateUtils.this', B + 'utilities:DateUtils.next']))
+    obs.append(Ob('O9.1-keys-through-parser', 'fn', 'harness.datekeys:audit_keys', slices=[{'lang': 'english'}], timeout=max(t, 300),
+                  descr='audit through the real code (finite, exhaustive over table keys): every month key x day key of the wired English maps (names, abbreviations, 10, 05, ...) '
+                        'without a year decodes to that month and day in both candidates (the symbolic obligation replaces the tables by one-entry tables)',
+                  bounds='3 870 key pairs', encodes=['recognizers_date_time.date_time.base_date:BaseDateParser.match_to_date']))
     return obs
